@@ -195,6 +195,9 @@ def oracle_loadback(ck, rng):
             shape = tuple(int(x) for x in rng.integers(2, 8, size=3))
             tmpl = rng.normal(size=shape).astype(np.float32)
             pos = np.array([rng.integers(9, 14) + ((s - 1) / 2 - (s - 1) // 2) for s in shape], dtype=float)
+            if i % 6 == 4 or i % 6 == 0 and (i // 6) % 2:
+                # a particle right at the low faces of the tomogram: its box starts at voxel 0 or 1 (the read-out window plus its margin starts below 0)
+                pos = np.array([(s - 1) / 2 + int(rng.integers(0, 2)) for s in shape], dtype=float)
             rot = Rotation.identity(1)
             order = int(rng.choice([0, 1, 3]))
             tol = 1e-4
@@ -229,8 +232,9 @@ def oracle_loadback(ck, rng):
             tin = _given(tmpl)
         sim.add_molecules(Molecules(pos[None] * scale, rot), tin)
         tomo = sim.simulate((26, 26, 26))
-        ld = SubtomogramLoader(tomo, Molecules(pos[None] * scale, rot), order=order, scale=scale, output_shape=shape)
-        back = ld.load(0)
+        cs_ = bool((i // 2) % 2)           # default and corner-safe cropping
+        ld = SubtomogramLoader(tomo, Molecules(pos[None] * scale, rot), order=order, scale=scale, output_shape=shape, corner_safe=cs_)
+        back = ld.load(0) if i % 4 < 2 else np.asarray(ld.average())
         err = float(np.abs(back - tmpl).max())
         if not exact:
             # interpolated twice: compare shape (correlation) and location (centre of mass) instead of voxel values
@@ -243,7 +247,7 @@ def oracle_loadback(ck, rng):
         ck.oracle_count("load_back_template", 1, 1)
         if err > tol:
             ck.violation(what=f"loading at a simulated molecule does not return the template (excess {err:.4f}, exact={exact})",
-                         inp={"shape": list(shape), "pos_px": pos.tolist(), "scale": scale, "order": order, "exact": exact, "template_given_as": via},
+                         inp={"shape": list(shape), "pos_px": pos.tolist(), "scale": scale, "order": order, "exact": exact, "template_given_as": via, "corner_safe": cs_},
                          key={"site": "loadback", "exact": exact, "even": any(s % 2 == 0 for s in shape), "template": via}, oracle="load_back_template", measured=err)
 
 
